@@ -90,18 +90,18 @@ func calleeName(c *ssa.CallCommon, e *Enc) string {
 }
 
 type callCtx struct {
-	e     *Enc
-	ins   ssa.Instruction
-	c     *ssa.CallCommon
-	val   ssa.Value // the call value (nil for defer)
-	name  string
-	args  []ssa.Value // including receiver for methods / invoke
-	sig   *types.Signature
+	e    *Enc
+	ins  ssa.Instruction
+	c    *ssa.CallCommon
+	val  ssa.Value // the call value (nil for defer)
+	name string
+	args []ssa.Value // including receiver for methods / invoke
+	sig  *types.Signature
 }
 
-func (cc *callCtx) arg(i int) string   { return cc.e.val(cc.args[i]) }
-func (cc *callCtx) loc(i int) *Loc     { return cc.e.locOf(cc.args[i]) }
-func (cc *callCtx) nargs() int         { return len(cc.args) }
+func (cc *callCtx) arg(i int) string { return cc.e.val(cc.args[i]) }
+func (cc *callCtx) loc(i int) *Loc   { return cc.e.locOf(cc.args[i]) }
+func (cc *callCtx) nargs() int       { return len(cc.args) }
 func (cc *callCtx) resType(i int) types.Type {
 	r := cc.sig.Results()
 	return r.At(i).Type()
